@@ -21,35 +21,51 @@ cat > "$OUT/../gen/cider_fft_config.h" <<'EOF'
 #define FFT_BACKEND 2
 #endif
 EOF
-HASH="$( (cd "$L" && find mod_cider numint_cider xc_utils fft_wrapper -type f \( -name '*.c' -o -name '*.h' \) | LC_ALL=C sort | xargs sha1sum; sha1sum "$HERE"/shim/fftw3.c "$HERE"/shim/fftw3.h "$HERE"/build.sh) | sha1sum | cut -d' ' -f1)"
+HASH="$( (cd "$L" && find mod_cider numint_cider xc_utils fft_wrapper pwutil -type f \( -name '*.c' -o -name '*.h' \) | LC_ALL=C sort | xargs sha1sum; sha1sum "$HERE"/shim/fftw3.c "$HERE"/shim/fftw3.h "$HERE"/build.sh; echo "${CIDER_VERIF_COVERAGE:-}") | sha1sum | cut -d' ' -f1)"
 STAMP="$OUT/.stamp"
 if [ "${1:-}" != "--force" ] && [ -f "$STAMP" ] && [ "$(cat "$STAMP")" = "$HASH" ] \
-   && [ -f "$OUT/libmcider.so" ] && [ -f "$OUT/libfft_wrapper.so" ] && [ -f "$OUT/libxc_utils.so" ] && [ -f "$OUT/libnumint.so" ]; then
+   && [ -f "$OUT/libmcider.so" ] && [ -f "$OUT/libfft_wrapper.so" ] && [ -f "$OUT/libxc_utils.so" ] && [ -f "$OUT/libnumint.so" ] && [ -f "$OUT/libpwutil.so" ]; then
   exit 0
 fi
 # Build under a lock into a temp dir, then move into place (checks may run concurrently).
 exec 9>"$OUT/.lock"
 flock 9
 if [ "${1:-}" != "--force" ] && [ -f "$STAMP" ] && [ "$(cat "$STAMP")" = "$HASH" ]; then exit 0; fi
-T="$(mktemp -d "$OUT/../tmp.XXXXXX")"
-trap 'rm -rf "$T"' EXIT
-CF="-O2 -g0 -fPIC -shared -fopenmp -std=gnu99 -w -DCIDERPRESS_VERIF"
+if [ "${CIDER_VERIF_COVERAGE:-}" = "1" ]; then
+  # diagnostic build (tools/coverage_run.sh): gcov-instrumented objects kept beside the libraries
+  T="$OUT/../gen"; COV="--coverage -O0"
+else
+  T="$(mktemp -d "$OUT/../tmp.XXXXXX")"; COV=""
+  trap 'rm -rf "$T"' EXIT
+fi
+CC="gcc -O2 -g0 -fPIC -fopenmp -std=gnu99 -w -DCIDERPRESS_VERIF $COV"
 INC="-I$L -I$L/mod_cider -I$L/fft_wrapper -I$OUT/../gen -I$HERE/shim"
-(
-gcc $CF $INC "$HERE/shim/fftw3.c" "$L/fft_wrapper/cider_fft.c" -o "$T/libfft_wrapper.so" -lm &
-gcc $CF $INC "$L"/numint_cider/*.c -o "$T/libnumint.so" -lopenblas -lm &
-gcc $CF $INC -I"$PYSCF_DEPS/include" "$L"/xc_utils/*.c -o "$T/libxc_utils.so" -L"$PYSCF_DEPS/lib" -Wl,-rpath,"$PYSCF_DEPS/lib" -lxc -lm &
-wait
-)
-# mod_cider: compile objects in parallel
-OBJS=()
+printf '#ifndef CIDERPW_CONFIG_H\n#define CIDERPW_CONFIG_H\n#define HAVE_MPI 0\n#endif\n' > "$OUT/../gen/config.h"
+# every translation unit is compiled to an object in parallel, then linked
+OBJS_M=(); OBJS_P=()
+$CC $INC -c "$HERE/shim/fftw3.c" -o "$T/shim_fftw3.o" &
+$CC $INC -c "$L/fft_wrapper/cider_fft.c" -o "$T/cider_fft.o" &
+$CC $INC -c "$L/numint_cider/nr_numint.c" -o "$T/nr_numint.o" &
+$CC $INC -I"$PYSCF_DEPS/include" -c "$L/xc_utils/libxc_baselines.c" -o "$T/libxc_baselines.o" &
 for f in "$L"/mod_cider/*.c; do
-  o="$T/$(basename "$f" .c).o"; OBJS+=("$o")
-  gcc -O2 -g0 -fPIC -fopenmp -std=gnu99 -w -DCIDERPRESS_VERIF $INC -c "$f" -o "$o" &
+  o="$T/$(basename "$f" .c).o"; OBJS_M+=("$o")
+  $CC $INC -c "$f" -o "$o" &
 done
+for f in grid_util nldf_fft_core nldf_fft_serial; do
+  o="$T/pw_$f.o"; OBJS_P+=("$o")
+  $CC $INC -c "$L/pwutil/$f.c" -o "$o" &
+done
+$CC $INC -c "$L/mod_cider/sph_harm.c" -o "$T/pw_sph_harm.o" &
+OBJS_P+=("$T/pw_sph_harm.o")
 wait
-gcc -shared -fopenmp "${OBJS[@]}" -o "$T/libmcider.so" -L"$T" -lfft_wrapper -Wl,-rpath,'$ORIGIN' -lopenblas -lm
-for n in libfft_wrapper libnumint libxc_utils libmcider; do
+LD="gcc -shared -fopenmp $COV"
+$LD "$T/shim_fftw3.o" "$T/cider_fft.o" -o "$T/libfft_wrapper.so" -lm
+$LD "$T/nr_numint.o" -o "$T/libnumint.so" -lopenblas -lm &
+$LD "$T/libxc_baselines.o" -o "$T/libxc_utils.so" -L"$PYSCF_DEPS/lib" -Wl,-rpath,"$PYSCF_DEPS/lib" -lxc -lm &
+$LD "${OBJS_M[@]}" -o "$T/libmcider.so" -L"$T" -lfft_wrapper -Wl,-rpath,'$ORIGIN' -lopenblas -lm &
+$LD "${OBJS_P[@]}" -o "$T/libpwutil.so" -L"$T" -lfft_wrapper -Wl,-rpath,'$ORIGIN' -lopenblas -lm &
+wait
+for n in libfft_wrapper libnumint libxc_utils libmcider libpwutil; do
   [ -f "$T/$n.so" ] || { echo "build failed: $n" >&2; exit 2; }
   mv -f "$T/$n.so" "$OUT/$n.so"
 done
